@@ -142,6 +142,7 @@ func c03Corpus(c *Ctx) []*corpus.Spec {
 		n = 200
 	}
 	specs = append(specs, corpus.Random(c.Seed, n)...)
+	specs = append(specs, corpus.RandomRich(c.Seed, n/2)...)
 	if c.Thorough() {
 		specs = append(specs, corpus.Tiny()...)
 	}
